@@ -273,6 +273,12 @@ def fresnel(n1, n2, theta1):
     Rv = (n2 * costheta1 - n1 * costheta2) / (n2 * costheta1 + n1 * costheta2)
     Rh = (n1 * costheta1 - n2 * costheta2) / (n1 * costheta1 + n2 * costheta2)
 
+    # Total reflection (snell() gives NaN without any NaN input): everything
+    # is reflected.
+    total = np.isnan(theta2) & ~np.isnan(n1 * n2 * costheta1)
+    Rv = np.where(total, 1.0, Rv)[()]
+    Rh = np.where(total, 1.0, Rh)[()]
+
     return Rv, Rh
 
 
